@@ -545,6 +545,124 @@ static void opExit(const HxLine& l)
   hxEndLine();
 }
 
+// ---- one persistent Process object: pid / descriptor bookkeeping ("0 = closed") ---------------------
+static Process* proc = 0;
+
+static void procNew()
+{
+  delete proc; // the destructor joins a child that is still running
+  proc = new Process;
+}
+
+static void procObserve(bool r, const char* extra)
+{
+  printf("p ok=%d st=%d%d%d%d%s", r ? 1 : 0, proc->pid ? 1 : 0, proc->fdStdOutRead ? 1 : 0, proc->fdStdErrRead ? 1 : 0,
+    proc->fdStdInWrite ? 1 : 0, extra);
+  hxEndLine();
+}
+
+static void opProc(const HxLine& l)
+{
+  const char* op = l.tok[1];
+  char extra[96] = "";
+  if(l.ntok == 2 && strcmp(op, "new") == 0)
+  {
+    procNew();
+    procObserve(true, "");
+  }
+  else if(l.ntok == 3 && strcmp(op, "start") == 0)
+  {
+    String commandLine(childPath, childPathLen);
+    char t[32];
+    snprintf(t, sizeof(t), " @exit %u", (unsigned)hxNum(l, 2));
+    commandLine.append(t, strlen(t));
+    uint32 before = proc->pid;
+    errno = 0;
+    uint32 pid = proc->start(commandLine);
+    snprintf(extra, sizeof(extra), " | pid=%s einval=%d", pid == 0 ? "0" : pid == proc->pid && pid != before ? "new" : "other", errno == EINVAL ? 1 : 0);
+    procObserve(pid != 0, extra);
+  }
+  else if(l.ntok == 4 && strcmp(op, "open") == 0)
+  {
+    char code[16];
+    snprintf(code, sizeof(code), "%u", (unsigned)hxNum(l, 3));
+    char* argv[] = {(char*)childPath, (char*)"@exit", code};
+    errno = 0;
+    bool ok = proc->open(String(childPath, childPathLen), 3, argv, (uint)hxNum(l, 2));
+    snprintf(extra, sizeof(extra), " | einval=%d", errno == EINVAL ? 1 : 0);
+    procObserve(ok, extra);
+  }
+  else if(l.ntok == 2 && strcmp(op, "join") == 0)
+  {
+    uint32 code = 9999;
+    errno = 0;
+    bool ok = proc->join(code);
+    if(ok)
+      snprintf(extra, sizeof(extra), " | code=%u", (unsigned)code);
+    else
+      snprintf(extra, sizeof(extra), " | einval=%d", errno == EINVAL ? 1 : 0);
+    procObserve(ok, extra);
+  }
+  else if(l.ntok == 2 && strcmp(op, "kill") == 0)
+  {
+    errno = 0;
+    bool ok = proc->kill();
+    snprintf(extra, sizeof(extra), " | einval=%d", !ok && errno == EINVAL ? 1 : 0);
+    procObserve(ok, extra);
+  }
+  else if(l.ntok == 3 && strcmp(op, "close") == 0)
+  {
+    proc->close((uint)hxNum(l, 2));
+    procObserve(true, "");
+  }
+  else if(l.ntok == 2 && strcmp(op, "running") == 0)
+  {
+    bool r = proc->isRunning();
+    snprintf(extra, sizeof(extra), " | pid=%d", proc->getProcessId() != 0 ? 1 : 0);
+    procObserve(r, extra);
+  }
+  else if(l.ntok == 3 && strcmp(op, "read3") == 0)
+  {
+    char buf[64];
+    uint streams = (uint)hxNum(l, 2);
+    errno = 0;
+    ssize n = proc->read(buf, sizeof(buf), streams);
+    bool einval = n == -1 && errno == EINVAL;
+    snprintf(extra, sizeof(extra), " | n=%ld", (long)n);
+    procObserve(!einval, extra);
+  }
+  else
+  {
+    printf("bad-op");
+    hxEndLine();
+  }
+}
+
+// killtest <mask>: a child that blocks reading its redirected stdin is killed
+static void opKillTest(const HxLine& l)
+{
+  uint mask = ((uint)hxNum(l, 1) & 3) | 4;
+  char a2[16];
+  snprintf(a2, sizeof(a2), "%u", mask);
+  char* argv[] = {(char*)childPath, (char*)"@io", a2, (char*)"0", (char*)"0", (char*)"0"};
+  Process p;
+  bool diverted = !(mask & 1);
+  Capture cap(false);
+  if(diverted && !divertStdout())
+  {
+    printf("FAULT tmpfile");
+    hxEndLine();
+    return;
+  }
+  bool ok = p.open(String(childPath, childPathLen), 6, argv, mask);
+  bool running = p.isRunning();
+  bool killed = ok && p.kill();
+  if(diverted)
+    restoreStdout(cap);
+  printf("kill ok=%d | running=%d killed=%d after=%u", ok ? 1 : 0, running ? 1 : 0, killed ? 1 : 0, pipesOf(p) | (p.pid ? 8u : 0u));
+  hxEndLine();
+}
+
 int main(int argc, char** argv)
 {
   if(argc > 1)
@@ -561,6 +679,7 @@ int main(int argc, char** argv)
     alarm(20);
     if(hxIs(l, "reset", 0))
     {
+      procNew();
       printf("ready");
       hxEndLine();
     }
@@ -574,6 +693,10 @@ int main(int argc, char** argv)
       opIo(l);
     else if(hxIs(l, "exit", 1))
       opExit(l);
+    else if(l.ntok >= 2 && strcmp(l.tok[0], "p") == 0)
+      opProc(l);
+    else if(hxIs(l, "killtest", 1))
+      opKillTest(l);
     else
     {
       printf("bad-op");
@@ -581,5 +704,6 @@ int main(int argc, char** argv)
     }
     alarm(0);
   }
+  delete proc;
   return 0;
 }
